@@ -44,7 +44,7 @@ def normalise_bindings(cands):
     out = run_model('evalabs', ['(run () () (%s))' % t for t in texts])
     res = {}
     for t, o in zip(texts, out):
-        parts = o.split(' | ')
+        parts = o.split(' ## ')
         res[t] = parts[1] if len(parts) == 2 and parts[1].startswith('(') else None
     return res
 
